@@ -226,7 +226,9 @@ type kase struct {
 	// scope part: the program texts evaluated, in order (location -> source)
 	Programs []scopeProg `json:"programs,omitempty"`
 	Targets  []string    `json:"targets,omitempty"`
-	Step     int         `json:"step,omitempty"`
+	// chain part: the loads of the chain, outermost first
+	Chain []chainStep `json:"chain,omitempty"`
+	Step  int         `json:"step,omitempty"`
 }
 
 // ---------------------------------------------------------------------------
@@ -434,8 +436,11 @@ type worker struct {
 	progs   map[string]lisp.Program // loading files, parsed once per (location, content)
 	hlocs   []string                // history part: the locations a hist.lisp loader asks for
 	hasked  []int                   // history part: len(asked) when each nested operation started
-	sbase   map[string]string       // scope part: outcome of a single top-level load, per (configuration, file, primitive, target)
-	hstates map[string]struct{}     // history part: canonical states seen by this worker
+	chain   []chainStep             // chain part: the loads the link.lisp files still have to perform
+	clevel  int
+	cbase   map[string]string   // chain part: marks of the same chain driven by LoadFile / load-file only
+	sbase   map[string]string   // scope part: outcome of a single top-level load, per (configuration, file, primitive, target)
+	hstates map[string]struct{} // history part: canonical states seen by this worker
 
 	// local counters, flushed at the end
 	outcomes map[outKey]int64
@@ -459,7 +464,7 @@ func (b bdef) Formals() *lisp.LVal                             { return b.formal
 func (b bdef) Eval(env *lisp.LEnv, args *lisp.LVal) *lisp.LVal { return b.fn(env, args) }
 
 func newWorker(sb *sandbox) *worker {
-	w := &worker{sb: sb, outcomes: map[outKey]int64{}, info: map[string]int64{}, hstates: map[string]struct{}{}, sbase: map[string]string{}, progs: map[string]lisp.Program{}}
+	w := &worker{sb: sb, outcomes: map[outKey]int64{}, info: map[string]int64{}, hstates: map[string]struct{}{}, sbase: map[string]string{}, cbase: map[string]string{}, progs: map[string]lisp.Program{}}
 	w.dirFS = os.DirFS(sb.B + "/root")
 	w.freshEnv()
 	return w
@@ -489,6 +494,28 @@ func (w *worker) freshEnv() {
 			w.marks = append(w.marks, histSep(i))
 			w.hasked = append(w.hasked, len(w.asked))
 			return lisp.String(w.hlocs[i])
+		}},
+		bdef{symChainLisp, lisp.Formals(), func(env *lisp.LEnv, args *lisp.LVal) *lisp.LVal {
+			return lisp.Bool(w.clevel < len(w.chain) && w.chain[w.clevel].Prim == "load-file")
+		}},
+		bdef{symChainLoc, lisp.Formals(), func(env *lisp.LEnv, args *lisp.LVal) *lisp.LVal {
+			if w.clevel >= len(w.chain) {
+				return env.Errorf("c20: the chain has no level %d", w.clevel)
+			}
+			st := w.chain[w.clevel]
+			w.clevel++
+			return lisp.String(st.Req)
+		}},
+		bdef{symChainGo, lisp.Formals(), func(env *lisp.LEnv, args *lisp.LVal) *lisp.LVal {
+			if w.clevel >= len(w.chain) {
+				return lisp.Nil() // end of the chain
+			}
+			st := w.chain[w.clevel]
+			w.clevel++
+			if st.Prim == "go-LoadFileContext" {
+				return env.LoadFileContext(context.Background(), st.Req)
+			}
+			return env.LoadFile(st.Req)
 		}},
 		bdef{symSep, lisp.Formals("i"), func(env *lisp.LEnv, args *lisp.LVal) *lisp.LVal {
 			w.marks = append(w.marks, histSep(args.Cells[0].Int))
@@ -755,6 +782,9 @@ func runKase(sb *sandbox, cwd *node, k kase) (kind, class, expected, got string,
 	if k.Part == "scope" {
 		return runScopeKase(sb, cwd, k)
 	}
+	if k.Part == "chain" {
+		return runChainKase(sb, cwd, k)
+	}
 	var ph *phaseCfg
 	phases := append(append([]phaseCfg(nil), rflPhases...), fsPhase)
 	for i := range phases {
@@ -988,7 +1018,7 @@ func run(r *core.Run) {
 	d.precheck(info)
 
 	// development aid: C20_PARTS=rfl,fs,history restricts the run (reported as capped)
-	parts := map[string]bool{"rfl": true, "fs": true, "history": true, "cwd": true, "scope": true}
+	parts := map[string]bool{"rfl": true, "fs": true, "history": true, "cwd": true, "scope": true, "chain": true}
 	if s := os.Getenv("C20_PARTS"); s != "" {
 		parts = map[string]bool{}
 		for _, p := range strings.Split(s, ",") {
@@ -1133,6 +1163,11 @@ func run(r *core.Run) {
 	// ---- part five: where the load call sits (lexical scope, function defined in another file)
 	if parts["scope"] && !r.Expired() && !r.Saturated() {
 		d.runScopes(tot, info, &mu)
+	}
+
+	// ---- part six: chains of files loaded THROUGH the library, per entry point and spelling
+	if parts["chain"] && !r.Expired() && !r.Saturated() {
+		d.runChains(tot, info, &mu)
 	}
 
 	// outcome classes: counted locally (a shared counter per case would serialise
